@@ -22,7 +22,7 @@ func init() {
 		Run:   runC18,
 		Explanation: "Decides the necessary conditions C18.1-C18.4 of DESIGN.md: (1) spec.template has the identical Go type (core/v1 PodTemplateSpec) under the identical JSON path spec.template, without omitempty on template, in the Advanced and the built-in type, and the whole spec agrees field by field (C19.1), so the encoded sub-tree the patch is cut from is produced by the same marshaller; " +
 			"(2) the revision data is a projection of spec.template plus the constant \"$patch\":\"replace\" (C08.1) and revision equality is byte equality of the data; (3) the upgrade marker written by the upgrade helper, selected by the revision lister and tested by the label-sync predicate is one constant, with the set's name as value on both sides; " +
-			"(4) the lister contains the marker-selector List, the label sync precedes the adoption call, copies the template labels and issues ControllerRevisions.Update. NOT decided: byte identity with the upstream controller's encoder for all templates (the upstream source is not in this sandbox).",
+			"(4) the lister contains the marker-selector List, the label sync precedes the adoption call, copies the template labels and issues ControllerRevisions.Update. (5) the CRD stores spec.template unpruned (the node and every node below it that declares properties preserve unknown fields); a candidate that clashes by name with an equal revision is that revision, never a collision (C08.4). NOT decided: byte identity with the upstream controller's encoder for all templates (the upstream source is not in this sandbox).",
 	})
 }
 
